@@ -465,10 +465,13 @@ func (c *check) variantsOf(prop, value, baseCanon string, full bool, probe func(
 func (c *check) runA(u int64, ctx *engine.Ctx) {
 	prop := c.names[u]
 	if c.listsOnly { // development aid (VERIF_C08_PARTS=A): the list family alone
-		c.runListFamily(ctx, prop, c.enumerateLight(ctx, prop))
+		pi := c.enumerateLight(ctx, prop)
+		c.checkNonsenseIdent(ctx, prop, pi)
+		c.runListFamily(ctx, prop, pi)
 		return
 	}
 	pi := c.enumerate(ctx, prop)
+	c.checkNonsenseIdent(ctx, prop, pi)
 	ctx.Count("a:declarations-validated", pi.tried)
 	ctx.Count("a:accepted-values", int64(len(pi.accepted)))
 	// rejected sequences are explored cases without an oracle of their own
